@@ -968,6 +968,24 @@ pub fn generate(rng: &mut Rng, n: usize, _thorough: bool) -> Vec<Value> {
     v.push(json!({"kind":"sm","response":"NoUpdate","forced_etag":true,"cup":true}));
     v.push(json!({"kind":"sm","response":"Update","forced_etag":true,"cup":true}));
     v.push(json!({"kind":"sm","response":"Update","forced_etag":true,"cup":false}));
+    // D5, minimal: one configured app, (a) a service URL with a path and no CUP, (b) a service URL
+    // with a query and CUP (the client appends cup2key after foo=bar), (c) the same URLs the other way round
+    if d5 {
+        let app = json!({"id": hx("app-1"), "ver": [0, 1, 2, 3], "fp": null, "cohort": {"id": null, "hint": null, "name": null}, "uc": null, "extra": []});
+        let params = json!({"source": "scheduled", "proxies": false, "disable": false, "samever": false});
+        let map = json!([[hx("app-1"), {"kind": "NoUpdate", "check": "UpdatesEnabled", "version": hx("0.1.2.3"), "cohort": null,
+                                        "codebase": hx("fuchsia-pkg://integration.test.fuchsia.com/"), "package": hx("update")}]]);
+        for (class, url, cup) in [("d5-path-no-cup", "/service/update", false), ("d5-query-cup", "/?foo=bar", true),
+                                  ("d5-path-cup", "/service/update", true), ("d5-query-no-cup", "/?foo=bar", false)] {
+            let config = json!({"name": hx("vh"), "uver": [1, 0, 0, 0], "os": [hx("p"), hx("v"), hx("s"), hx("a")], "url": hx(&format!("{}{}", HOST, url))});
+            v.push(json!({
+                "kind": "batch", "class": class,
+                "server": {"responses": map, "keys": [[42, 7]], "etag_override": null, "require_cup": false},
+                "client_keys": [[42, 7]],
+                "steps": [{"step": "omaha", "config": config, "params": params, "ops": [{"op": "uc", "app": app}], "reqid": false, "sessid": false, "cup": cup}],
+            }));
+        }
+    }
     for _ in 0..n {
         v.push(gen_batch(rng, d5));
     }
